@@ -88,8 +88,18 @@ class Relation:
             and self.card_max == other.card_max
         )
 
+    def _ordering_key(self) -> tuple[str, int, int, list[str]]:
+        """Key used for sorting; equal relations (see __eq__) have equal keys."""
+        parent_name = self.parent.name if self.parent else ""
+        return (
+            parent_name,
+            self.card_min,
+            self.card_max,
+            sorted(child.name for child in self.children),
+        )
+
     def __lt__(self, other: Any) -> bool:
-        return str(self) < str(other)
+        return self._ordering_key() < other._ordering_key()
 
 
 class FeatureType(Enum):
